@@ -483,7 +483,7 @@ func binCutOffHangUp(ev *vlib.Evidence, idx int) {
 	desc := fmt.Sprintf("cut-off keep-alive over HTTP with hang-up hosts=%d idx=%d", nh, idx)
 	ev.Case(desc, true)
 	ev.Count("binary-economy:cut-off-with-hang-up", 1)
-	deadline := time.Now().Add(8 * time.Second)
+	deadline := time.Now().Add(25 * time.Second) // generous: only a failing run waits this long
 	asked := 0
 	for time.Now().Before(deadline) {
 		asked = 0
